@@ -33,11 +33,13 @@ PROPS["C04"] = {
     "rule": "rapid-generated VAA values (all field ranges, payload 0..3000, sub-second times) with a header variation and one "
             "single-field body mutation each; non-trivial = payload length differs from the suite's 6-byte vector and at least "
             "one body field sits on a boundary value",
-    "assumptions": ["reference body/digest in harness/common/refvaa.go written from the statement", "go-ethereum keccak trusted"],
+    "assumptions": ["reference body/digest in harness/common/refvaa.go written from the statement", "go-ethereum keccak/ecrecover trusted", "contract side = interpreter of Messages.sol parseVM read steps and of governance.ral parseAndVerifyVAA as extracted from the current tree"],
     "units": [
         U("TestVerif_C04_Digest", "./pkg/vaa", R(40000), R(200000, shards=16, timeout=900)),
         U("TestVerif_C04_Processor", "./pkg/processor", R(1500), R(10000, shards=16, timeout=900)),
+        U("TestVerif_C04_Contracts", "./pkg/vaa", R(1500), R(10000, shards=16, timeout=900)),
     ],
+    "pre": lambda work: extract_contracts(work),
 }
 
 PROPS["C06"] = {
